@@ -127,6 +127,13 @@ def run_op(m, s, box, x, y, o, par, name, w, k):
                 m.children['sys']['drv%d' % k] = None          # the child name is taken even when the driver is refused
                 mkbuf(s, 'drv%d' % k, x, tgt)
                 upd = lambda: m.driven.add(id(tgt))
+            elif o == 6:
+                # a second out port of the block that ALREADY drives y, attached to y again
+                what = 'OutPort(p1, "alias%d", y)' % k
+                expect = True
+                from py4hw.base import OutPort
+                p1 = m.children['sys']['p1']
+                OutPort(p1, 'alias%d' % k, y)
             elif o == 3:
                 wk, wn = m.where(w)
                 what = '%s.rename(%r)' % (wn, name)
@@ -165,7 +172,7 @@ def construct_task(p, cfg, rec):
     first = cfg['first']                       # the first operation is enumerated by the task list, the second is symbolic
     rec.update(['py4hw.base.Wire.__init__', 'py4hw.base.Logic.__init__', 'py4hw.base.Logic.appendWire', 'py4hw.base.Wire.setSource',
                 'py4hw.base.Wire.rename', 'py4hw.base.Wire.reparent', 'py4hw.base.Wire.reparentAndRename', 'py4hw.base.OutPort.__init__'])
-    op, opv = core.fresh_range('op', 0, 5)
+    op, opv = core.fresh_range('op', 0, 6)
     par, parv = core.fresh_range('parent', 0, 1)
     nm, nmv = core.fresh_range('name', 0, len(POOL) - 1)
     wsel, wv = core.fresh_range('wire', 0, 1)
@@ -393,7 +400,7 @@ def tasks_for(tier):
     t = [('construction API, template %s, one operation' % k, construct_task, {'template': k, 'first': None}) for k in ('flat', 'two-level')]
     # two-operation histories: the first operation enumerated here, the second by symbolic selectors
     firsts = []
-    for o in range(6):
+    for o in range(7):
         for pa in (0, 1):
             for ni in range(len(POOL)):
                 for wi in (0, 1):
@@ -404,6 +411,8 @@ def tasks_for(tier):
                     if o in (3, 5) and pa == 1:
                         continue
                     if o == 4 and (ni > 0 or pa == 1):
+                        continue
+                    if o == 6 and (ni > 0 or wi == 1 or pa == 1):
                         continue
                     firsts.append((o, pa, ni, wi))
     for f in firsts:
@@ -436,7 +445,7 @@ def main(argv=None):
         assumptions=['histories of one or two operations after a generated template (a system with two wires, a box with one wire, one primitive driver; optionally a nested box); the expected outcome comes from an abstract registry model, not from the implementation state',
                      'a failed rename/reparent may leave the moved wire itself unregistered; the statement only demands that the earlier owner of the name stays in place',
                      'integrity clause: inputs driven by Constant blocks; single fault = one input left undriven (library blocks) or one driver removed at any position of a generated structural hierarchy, including wires nobody reads, unused inputs and wires attached to no port'],
-        bounds={'names': POOL, 'operations': 'Wire(), primitive construction (child name / second driver), rename, reparent, reparentAndRename',
+        bounds={'names': POOL, 'operations': 'Wire(), primitive construction (child name / second driver), a second out port of the driving block on the same wire, rename, reparent, reparentAndRename',
                 'integrity': 'one configuration per library block class of the C07/C08/C09 grids (thorough: up to 4)'},
         trusted_base=['symx selector forks (path-complete)', 'oracle predicates in checks/c11.py'])
 
